@@ -100,8 +100,13 @@ Proof.
   - (* frame *)
     apply on_slot_step.
     + intros E. apply SInv_mon_in; auto.
-    + intros E s Hs. subst j. cbn [ms]. destruct (live s); [apply handle_frame_Inv; auto|];
-        apply W_init; apply (Inv_mon_in acc s mn i (EvFrame i f) I); auto.
+    + intros E s Hs. subst j. cbn [ms]. destruct (live s).
+      * assert (K : W (Inv (acc_upd i (EvFrame i f) mn acc)) (mon_in i (EvFrame i f) mn)
+                      (handle_frame v i f (mkM s (nreq st) (free st) (queue st) []))).
+        { apply handle_frame_Inv; auto. apply W_init; apply (Inv_mon_in acc s mn i (EvFrame i f) I); auto. }
+        destruct (vtd v && in_net (ph s) && existsb is_lcp_down (mo (handle_frame v i f (mkM s (nreq st) (free st) (queue st) [])))); [|exact K].
+        apply terminate_T. exact K.
+      * apply W_init; apply (Inv_mon_in acc s mn i (EvFrame i f) I); auto.
   - (* AAA answer *)
     destruct (find_idx (pend_matches v k) (sl st) 0) as [j|] eqn:Ef.
     + destruct (find_idx_spec _ _ _ _ _ Ef) as (sj & _ & Hn & Hp). rewrite Nat.sub_0_r in Hn.
